@@ -18,6 +18,15 @@ import (
 // cannot be identified the rule that needs it reports an unresolved anchor.
 
 var fieldAlias = map[string]string{} // "Type.actualField" → canonical field name
+var typeAlias = map[string]string{}  // actual name of a renamed unexported type → canonical name
+
+// canonType maps the actual name of a type to the name the rules use.
+func canonType(actual string) string {
+	if c, ok := typeAlias[actual]; ok {
+		return c
+	}
+	return actual
+}
 var funcAlias = map[*ssa.Function]string{}
 
 // canonicalField maps an actual field name of type tn to its canonical name.
@@ -249,6 +258,31 @@ func ResolveRoles(p *Prog) {
 			}
 			if len(real) == 1 {
 				nestedOwner[k] = real[0]
+			}
+		}
+	}
+	// unexported anchor types, re-identified by role when renamed: the concrete type behind JustGenerics' result and the
+	// type of the None value
+	typeAlias = map[string]string{}
+	if p.Fpgo != nil {
+		if _, ok := p.Fpgo.Members["someDef"].(*ssa.Type); !ok {
+			if f, okF := p.Fpgo.Members["JustGenerics"].(*ssa.Function); okF {
+				Instrs(f, func(ins ssa.Instruction) {
+					if mi, isMI := ins.(*ssa.MakeInterface); isMI {
+						if n, isN := mi.X.Type().(*types.Named); isN && !n.Obj().Exported() {
+							typeAlias[n.Origin().Obj().Name()] = "someDef"
+						}
+					}
+				})
+			}
+		}
+		if _, ok := p.Fpgo.Members["noneDef"].(*ssa.Type); !ok {
+			if g, okG := p.Fpgo.Members["None"].(*ssa.Global); okG {
+				if pt, okP := g.Type().(*types.Pointer); okP {
+					if n, isN := pt.Elem().(*types.Named); isN && !n.Obj().Exported() {
+						typeAlias[n.Origin().Obj().Name()] = "noneDef"
+					}
+				}
 			}
 		}
 	}
